@@ -358,27 +358,55 @@ Definition replace1 (x : N) (y : str) (s : str) : str :=
 Definition quote_encode (s : str) : str :=
   34 :: replace1 13 [92; 114] (replace1 34 [92; 34] (replace1 10 [92; 110] (replace1 92 [92; 92] s))) ++ [34].
 
-(* nt._quoteLiteral: "if l_.language: ... elif l_.datatype: ... else" (truthiness of str subclasses) *)
-Definition quote_literal (lex : str) (k : lkind) : str :=
-  quote_encode lex ++
+(* nt._quoteLiteral: [if l_.language: ... elif l_.datatype: ... else] (truthiness of str subclasses);
+   the datatype is written with URIRef.n3(), which raises for an invalid IRI (None) *)
+Definition iri_n3 (s : str) : option str :=
+  if valid_uri s then Some (60 :: s ++ [62]) else None.
+Definition quote_literal (lex : str) (k : lkind) : option str :=
   match k with
-  | LLang (c :: l) => 64 :: c :: l
-  | LDt (c :: d) => [94; 94; 60] ++ (c :: d) ++ [62]
-  | _ => []
+  | LLang (c :: l) => Some (quote_encode lex ++ 64 :: c :: l)
+  | LDt (c :: d) => match iri_n3 (c :: d) with
+                    | Some t => Some (quote_encode lex ++ [94; 94] ++ t)
+                    | None => None
+                    end
+  | _ => Some (quote_encode lex)
   end.
+
+(* term._is_valid_langtag: bool(re.match(PATTERN, tag)) with PATTERN = ^[a-zA-Z]+(?:-[a-zA-Z0-9]+)*\Z
+   (reflected as lang_tag_regex_src and pinned in Proofs.v): exactly the LANGTAG production without the '@' *)
+Fixpoint split_dash (l : str) : list str :=
+  match l with
+  | [] => [[]]
+  | c :: r => match split_dash r with
+              | p :: ps => if c =? 45 then [] :: p :: ps else (c :: p) :: ps
+              | [] => [[c]]   (* unreachable *)
+              end
+  end.
+Definition nonempty_all (p : N -> bool) (s : str) : bool :=
+  match s with [] => false | _ => forallb p s end.
+Definition w3c_langtag (l : str) : bool :=
+  match split_dash l with
+  | prim :: subs => nonempty_all is_alpha prim && forallb (nonempty_all is_alnum) subs
+  | [] => false
+  end.
+Definition py_valid_langtag (l : str) : bool := w3c_langtag l.
 
 (* URIRef.n3() raises when _is_valid_uri fails (None); BNode.n3() = "_:" + self.
    Literal.n3() (Turtle-style text) is outside this model: literal subjects,
    predicates and graph names are outside the property's graphs. *)
 Definition n3 (t : term) : option str :=
   match t with
-  | Iri s => if valid_uri s then Some (60 :: s ++ [62]) else None
+  | Iri s => iri_n3 s
   | Bn s => Some (95 :: 58 :: s)
   | Lit _ _ => None
   end.
+(* Literal.__new__ raises ValueError for a language tag that _is_valid_langtag rejects: such a literal does
+   not exist (None: the row cannot even be built) *)
+Definition lit_exists (k : lkind) : bool :=
+  match k with LLang l => py_valid_langtag l | _ => true end.
 Definition obj_text (o : term) : option str :=
   match o with
-  | Lit lex k => Some (quote_literal lex k)
+  | Lit lex k => if lit_exists k then quote_literal lex k else None
   | _ => n3 o
   end.
 (* nt._nt_row *)
@@ -404,33 +432,6 @@ Definition nq_row (t : triple) (g : term) : option str :=
   | Some gn, Some a, Some b, Some c => Some (a ++ [32] ++ b ++ [32] ++ c ++ [32] ++ gn ++ [32; 46; 10])
   | _, _, _, _ => None
   end.
-
-(* term._is_valid_langtag: bool(re.match("^[a-zA-Z]+(?:-[a-zA-Z0-9]+)*$", tag)).
-   Python's "$" also matches just before a final "\n". *)
-Fixpoint split_dash (l : str) : list str :=
-  match l with
-  | [] => [[]]
-  | c :: r => match split_dash r with
-              | p :: ps => if c =? 45 then [] :: p :: ps else (c :: p) :: ps
-              | [] => [[c]]   (* unreachable *)
-              end
-  end.
-Definition nonempty_all (p : N -> bool) (s : str) : bool :=
-  match s with [] => false | _ => forallb p s end.
-Definition w3c_langtag (l : str) : bool :=
-  match split_dash l with
-  | prim :: subs => nonempty_all is_alpha prim && forallb (nonempty_all is_alnum) subs
-  | [] => false
-  end.
-Fixpoint drop_last_nl (l : str) : str :=
-  match l with
-  | [] => []
-  | c :: r => match r with
-              | [] => if c =? 10 then [] else [c]
-              | _ => c :: drop_last_nl r
-              end
-  end.
-Definition py_valid_langtag (l : str) : bool := w3c_langtag (drop_last_nl l).
 
 (* ============================================================ Part C *)
 
@@ -469,7 +470,7 @@ Definition wf_object (t : term) : bool :=
   match t with
   | Lit _ LPlain => true
   | Lit _ (LLang l) => py_valid_langtag l       (* Literal.__new__ raises otherwise *)
-  | Lit _ (LDt d) => has_scheme d               (* nothing else is checked anywhere *)
+  | Lit _ (LDt d) => wf_iri d                   (* _quoteLiteral writes it with URIRef.n3() *)
   | _ => wf_node t
   end.
 Definition wf_triple (t : triple) : bool :=
@@ -478,27 +479,19 @@ Definition wf_triple (t : triple) : bool :=
 Definition wf_row (nq : bool) (r : triple * term) : bool :=
   wf_triple (fst r) && (negb nq || wf_node (snd r)).
 
-(* known-finding triggers, each exactly the region where the writer's checks are
-   narrower than the grammar:
-   1 C05a  an IRI in node/predicate/graph position has a control character U+0000-U+001F
-           (_is_valid_uri does not look for them)
-   2 C05b  a datatype IRI has a character IRIREF forbids (_quoteLiteral never checks it)
+(* known-finding trigger (the only place left where the writer's checks are narrower than the grammar):
    3 C05c  a blank node identifier is not a BLANK_NODE_LABEL (BNode.n3 writes it verbatim)
-   4 C05d  a language tag ends in "\n" (the "$" of _lang_tag_regex) *)
-Definition has_ctrl (s : str) : bool := existsb (fun c => c <? 32) s.
+   (1 C05a control characters in IRIs, 2 C05b unchecked datatype IRI, 4 C05d language tag with a final
+   line feed have been repaired in the code: ffbc1d81, 16a2b8eb, d6b3ed8d) *)
 Definition valid_label (s : str) : bool :=
   match s with
   | [] => false
   | c :: t => (pn_chars_u c || is_digit c) && forallb label_char t && negb (last t 0 =? 46)
   end.
-Definition iri_ok (s : str) : bool := forallb iri_plain s.
 Definition term_kf (t : term) : N :=
   match t with
-  | Iri s => if has_ctrl s then 1 else 0
   | Bn s => if valid_label s then 0 else 3
-  | Lit _ (LDt d) => if iri_ok d then 0 else 2
-  | Lit _ (LLang l) => if w3c_langtag l then 0 else 4
-  | Lit _ LPlain => 0
+  | _ => 0
   end.
 Definition first_nz (l : list N) : N :=
   match filter (fun n => negb (n =? 0)) l with x :: _ => x | [] => 0 end.
